@@ -36,6 +36,7 @@ EXPLANATION = (
   ' (LOOP-break) no loop over the items of a collection is left by a branch that does nothing but `break` on a test about the item (end-of-input sentinels, flags set in the loop body and searches whose variable is read afterwards excepted): an item that is to be skipped does not end the processing of the items after it;'
   + " (FIN-merge) the paragraph merger, interpreted on sample snapshots (divs nested at several depths, a nested div between paragraphs, one or several regions), leaves one paragraph per region holding the spans of all its paragraphs in document order with one line break between consecutive paragraphs;"
   + " (DEP-round, shared with C12) ClockTime.from_seconds, which prints every cue time, derives hours, minutes, seconds and milliseconds from one value rounded once to the millisecond;"
+  + " (FIN-eol) SrtParagraph and VttCue, interpreted on sequences of append_text() calls followed by normalize_eol(), leave a payload without an empty line and without line breaks at its ends, whether the line breaks arrive one per call or several inside one text node;"
 )
 RULE_TEXT = "per tag pair, per tag append, per supported value, per text flow"
 UNDECIDED = ["cue-setting values (line, align) vs the computed position and alignment", "no empty line / no '-->' inside an SRT payload (SRT has no escaping mechanism)",
@@ -612,6 +613,8 @@ def check_line_position(ctx):
 
 
 def run(ctx):
+  from ..rules import probes as _probes2
+  ctx.floor("FIN-eol", "append sequences decided", _probes2.check_payload_eol(ctx), 12)
   from . import c12 as _c12r
   _c12r.check_single_rounding(ctx)
   from ..rules import probes as _probes
